@@ -19,16 +19,16 @@ use num::{One, Signed, Zero};
 use std::panic::{catch_unwind, AssertUnwindSafe};
 use std::time::Instant;
 
-pub const RULE: &str = "decider 1 (taint): the C14 scalar type logs every to_f64 call with its dependency set; with debug output off every narrowed value may depend on nothing but the gamma coordinate 2E-2 (never on another coordinate, never on user masses/shifts) and every value widened back from f64 with dependencies is the gamma variate. decider 2 (precision gain): a double-double scalar (~106 bits) is pushed through the sampler on well-conditioned points and the outputs are checked with exact rational arithmetic at 1e-26*kappa instead of the 1e-13*kappa reachable in f64: u vs det(l_matrix), inverse*L-I, q_transposed*(k+shift) - sqrt(v/2lambda) q, shift vs L^-1 u_vectors, and agreement of u, v, jacobian between two routings of one point; lambda is the documented exception (its low word is 0). non-trivial = L>=2; distinct = distinct case encodings";
+pub const RULE: &str = "decider 1 (taint): the C14 scalar type logs every to_f64 call with its dependency set; with debug output off every narrowed value may depend on nothing but the gamma coordinate 2E-2 (never on another coordinate, never on user masses/shifts) and every value widened back from f64 with dependencies is the gamma variate. decider 2 (precision gain): a double-double scalar (~106 bits) is pushed through the sampler on well-conditioned points and the outputs are checked with exact rational arithmetic at 1e-26*kappa instead of the 1e-13*kappa reachable in f64: u vs det(l_matrix), inverse*L-I, q_transposed*(k+shift) - sqrt(v/2lambda) q, shift vs L^-1 u_vectors, and agreement of u, v, jacobian between two routings of one point; lambda is the documented exception (its low word is 0); the L matrix against the sector formula evaluated in double-double; ill-conditioned points by the precision gain over the f64 run; decider 4: decompose_for_tropical itself on double-double copies of the C15 matrix classes (incl. weakly joined blocks) against exact rational inverse/determinant at 1e-26*cond. non-trivial = L>=2 (samples) or n>=3 (matrices); distinct = distinct case encodings";
 
 pub fn gen_case(t: &mut Tape, tier: Tier) -> Option<c09::Case> {
-    let g = gen::gen_phys_graph(t, tier.pick(7, 8), 4, 0.3, 6)?;
+    let g = gen::gen_phys_graph(t, tier.pick(7, 8), 5, 0.3, 6)?;
     let (free, masses) = gen::gen_kin_data(t, &g);
     // exactly representable kinematics: the two routings must be equivalent to all 106 bits
     let free: Vec<Vec<f64>> = free.iter().map(|p| p.iter().map(|&v| gen::grid16(v)).collect()).collect();
     let kin = gen::gen_routing_exact(t, &g, &free, &masses, 3);
     let kin2 = gen::gen_routing_exact(t, &g, &free, &masses, 3);
-    let prof = gen::PointProfile { u_w: [0.5, 0.5, 0.0, 0.0], xi_w: [0.0, 0.1, 0.9, 0.0], lambda_tail: 0.0, bm_extreme: 0.0 };
+    let prof = gen::PointProfile { u_w: [0.5, 0.5, 0.0, 0.0], xi_w: [0.0, 0.1, 0.7, 0.2], lambda_tail: 0.0, bm_extreme: 0.0 };
     let (x, classes) = gen::gen_point(t, &g, &prof);
     Some(c09::Case { a: Phys { g, kin, x, classes: classes.into_iter().map(String::from).collect() }, kin2 })
 }
@@ -179,7 +179,37 @@ fn dd_d<const D: usize>(s: &SampleGenerator<D>, p: &Phys, ctx: &mut Ctx) -> Resu
     };
     let kappa = lin::fro(&labs) * lin::fro(&invq);
     if !(kappa <= 1e8) {
-        ctx.label("dd:skip-ill-conditioned");
+        // widely spread parameters: a condition-scaled absolute tolerance is meaningless here, but the property
+        // ("correspondingly more precise") still is: compare the residuals of the double-double run with the
+        // residuals of the plain f64 run of the same case, computed exactly. The wider type must gain >= 8 digits.
+        ctx.label("dd:ill-conditioned(precision-gain comparison)");
+        let ed = sut::edge_data::<D>(&g.massive, &p.kin.masses, &p.kin.shifts);
+        let Ok(f) = sut::sample_f64(s, &p.x, ed, None, false, true) else { return Ok(None) };
+        let Some(fm) = f.meta.as_ref() else { return Ok(None) };
+        let (Some(lf), Some(invf)) = (lin::from_f64(&fm.l), lin::from_f64(&fm.dec.inv)) else { return Ok(None) };
+        let res_f = lin::fro(&lin::sub(&lin::matmul(&invf, &lf), &lin::identity(nl)));
+        let inv = mat_q(&md.decompoisiton_result.inverse);
+        let res_d = lin::fro(&lin::sub(&lin::matmul(&inv, &lq), &lin::identity(nl)));
+        if res_f.is_finite() && res_f < 1e-3 {
+            let t_ = (1e-8 * res_f).max(1e-29 * nl as f64);
+            ctx.max("dd_gain_inverse_residual_over_tol", res_d / t_);
+            if !(res_d <= t_) {
+                fail!("dd-precision-gain-inverse", "ill-conditioned point (kappa {kappa:e}): |inverse*L - I|_F is {res_f:e} in f64 and {res_d:e} with the double-double scalar - the wider type gains fewer than 8 digits; case {p:?}");
+            }
+        }
+        // same for the triangular factor inverse: q_transposed_inverse * q_transposed
+        let (Some(qtf), Some(qtif)) = (lin::from_f64(&fm.dec.qt), lin::from_f64(&fm.dec.qti)) else { return Ok(None) };
+        let rq_f = lin::fro(&lin::sub(&lin::matmul(&qtif, &qtf), &lin::identity(nl)));
+        let qtd = mat_q(&md.decompoisiton_result.q_transposed);
+        let qtid = mat_q(&md.decompoisiton_result.q_transposed_inverse);
+        let rq_d = lin::fro(&lin::sub(&lin::matmul(&qtid, &qtd), &lin::identity(nl)));
+        if rq_f.is_finite() && rq_f < 1e-3 {
+            let t_ = (1e-8 * rq_f).max(1e-29 * nl as f64);
+            ctx.max("dd_gain_factor_inverse_residual_over_tol", rq_d / t_);
+            if !(rq_d <= t_) {
+                fail!("dd-precision-gain-factor", "ill-conditioned point (kappa {kappa:e}): |R^-1 R - I|_F is {rq_f:e} in f64 and {rq_d:e} with the double-double scalar - the wider type gains fewer than 8 digits; case {p:?}");
+            }
+        }
         return Ok(None);
     }
     let tol = DD_TOL * kappa;
@@ -314,13 +344,83 @@ pub fn check(c: &c09::Case, ctx: &mut Ctx) -> Result<(), Failure> {
     phys::validate(&b)?;
     with_d!(c.a.g.d, check_d(c, ctx))
 }
+// ------------------------------------------------------------------ decider 4: the matrix routine in double-double
+pub fn gen_matrix(t: &mut Tape, tier: Tier) -> Option<super::c15::Case> {
+    super::c15::gen_case(t, tier)
+}
+pub fn check_matrix(c: &super::c15::Case, ctx: &mut Ctx) -> Result<(), Failure> {
+    let a = &c.a;
+    let n = a.len();
+    if n == 0 || n > 8 || a.iter().any(|r| r.len() != n) || a.iter().flatten().any(|x| !x.is_finite()) {
+        fail!("bad-case", "not a finite square matrix");
+    }
+    let Some((aq, detq, invq, cond)) = super::c15::exact_info(a) else {
+        ctx.label("matrix:excluded-not-spd");
+        return Ok(());
+    };
+    let mags = [qf(&detq.abs()), lin::fro(&aq), lin::fro(&invq)];
+    if !(cond <= 1e8) || mags.iter().any(|m| !(*m > 1e-100 && *m < 1e100)) || a.iter().flatten().any(|x| *x != 0.0 && f64::abs(*x) < 1e-100) {
+        ctx.label("matrix:excluded-cond>1e8-or-magnitude");
+        return Ok(());
+    }
+    ctx.label(format!("matrix:{}", c.class));
+    let mut m = momtrop::matrix::SquareMatrix::new_zeros_from_num(&DD::f(0.0), n);
+    for i in 0..n {
+        for j in 0..n {
+            m[(i, j)] = DD::f(a[i][j]);
+        }
+    }
+    let st = sut::settings(None, false, false);
+    let dec = match catch_unwind(AssertUnwindSafe(|| m.decompose_for_tropical(&st))) {
+        Ok(Ok(d)) => d,
+        Ok(Err(e)) => fail!("dd-matrix-rejected", "decompose_for_tropical::<double-double> returned {e:?} for an SPD matrix with cond {cond:e}: {a:?}"),
+        Err(_) => fail!("dd-matrix-panic", "decompose_for_tropical::<double-double> panicked: {}", take_panic()),
+    };
+    let inv = mat_q(&dec.inverse);
+    let tol = DD_TOL * cond * n as f64;
+    let e_inv = lin::fro(&lin::sub(&inv, &invq)) / lin::fro(&invq);
+    ctx.max("dd_matrix_inverse_over_tol", e_inv / tol);
+    if !(e_inv <= tol) {
+        fail!("dd-matrix-inverse-precision", "double-double matrix routine: |inverse - A^-1|_F/|A^-1|_F = {e_inv:e} > {tol:e} (cond {cond:e}); a 106-bit scalar must give ~1e-31*cond; A = {a:?}");
+    }
+    let qti = mat_q(&dec.q_transposed_inverse);
+    let qt = mat_q(&dec.q_transposed);
+    let e_f = lin::fro(&lin::sub(&lin::matmul(&qti, &qt), &lin::identity(n)));
+    if !(e_f <= tol) {
+        fail!("dd-matrix-factor-precision", "double-double matrix routine: |R^-1 R - I|_F = {e_f:e} > {tol:e}; A = {a:?}");
+    }
+    let e_d = relq(&dec.determinant.q(), &detq);
+    if !(e_d <= tol) {
+        fail!("dd-matrix-determinant-precision", "double-double matrix routine: determinant off by {e_d:e} > {tol:e}; A = {a:?}");
+    }
+    if n >= 3 {
+        ctx.nontrivial();
+    }
+    Ok(())
+}
+
+#[derive(Clone, Debug, serde::Serialize, serde::Deserialize)]
+#[serde(untagged)]
+pub enum Any {
+    Sample(c09::Case),
+    Matrix(super::c15::Case),
+}
+pub fn check_any(c: &Any, ctx: &mut Ctx) -> Result<(), Failure> {
+    match c {
+        Any::Sample(s) => check(s, ctx),
+        Any::Matrix(m) => check_matrix(m, ctx),
+    }
+}
+
 pub fn run(tier: Tier, seed: u64) -> i32 {
     let t0 = Instant::now();
     let sp = Spec { id: "C19", rule: RULE, tape_len: 320, cases: tier.pick(20_000, 200_000), gen: gen_case, check, max_shrink_iters: 1500, shards: 16 };
     let mut stats = engine::run_spec(&sp, tier, seed);
-    engine::run_regressions::<c09::Case>("C19", check, &mut stats);
+    let sp2 = Spec { id: "C19", rule: RULE, tape_len: 260, cases: tier.pick(20_000, 300_000), gen: gen_matrix, check: check_matrix, max_shrink_iters: 1500, shards: 16 };
+    stats.merge(engine::run_spec(&sp2, tier, seed ^ 0x1919));
+    engine::run_regressions::<Any>("C19", check_any, &mut stats);
     engine::finish("C19", tier, seed, RULE, stats, t0, serde_json::json!({}), &["the double-double scalar is accurate to ~1e-31 relative for + - * / sqrt exp ln sin cos (validated against exact rational Taylor sums at design time)", "tolerance 1e-26*kappa: five orders above the measured double-double error, ten orders below an f64 detour"])
 }
 pub fn replay(path: &str) -> i32 {
-    engine::replay_file::<c09::Case>("C19", path, check)
+    engine::replay_file::<Any>("C19", path, check_any)
 }
